@@ -11,6 +11,8 @@ for s in "$@"; do
   crate=$(echo "$line" | sed -E 's/.*\(crate ([A-Za-z0-9_]+).*/\1/')
   feat=""
   grep -q 'cfg(feature = "jsonld")' $sd/demo_test.rs && feat="jsonld"
+  f2=$(sed -n '1,3p' $sd/demo_test.rs | sed -nE 's|^// features: *([A-Za-z0-9_, -]+).*|\1|p' | head -1)
+  [ -n "$f2" ] && feat="$f2"
   echo "== $s ($crate $tp $feat)"
   FEATURES=$feat /verif/lib/confirm_seed.sh $sd /tmp/wt-$wt $crate $tp
 done
